@@ -289,11 +289,18 @@ Theorem C20_subgraph_rejects : forall g loc ren,
   get_subgraph g loc ren = None.
 Proof. exact get_subgraph_rejects. Qed.
 
-(* known finding C20-F5: the permutation test only compares min and max of the values, so
-   a non-injective renumbering is accepted and merges vertices *)
-Theorem C20_subgraph_weak_check_refuted :
-  get_subgraph [[2]; []; [0]] [0; 1; 2] (Some [(0, 0); (1, 0); (2, 2)]) = Some [(0, 2); (0, 2)].
-Proof. exact get_subgraph_weak_permutation_check. Qed.
+(* the renumbering values must be exactly a permutation of [0, len(location)): a repeated
+   or out-of-range value is rejected (ValueError) - was defect C20-F5, fixed in /repo edc1b80 *)
+Theorem C20_subgraph_rejects_non_permutation : forall g loc ren,
+  (~ NoDup (map snd (ren_of loc ren)) \/ (exists v, In v (map snd (ren_of loc ren)) /\ length loc <= v)) ->
+  get_subgraph g loc ren = None.
+Proof. exact get_subgraph_rejects_non_permutation. Qed.
+
+(* conversely, success means: valid location and a bijective renumbering - so C20_subgraph_iso
+   covers EVERY successful call *)
+Theorem C20_subgraph_success_means_bijection : forall g loc ren es, get_subgraph g loc ren = Some es ->
+  NoDup loc /\ loc <> [] /\ (forall q, In q loc -> q < length g) /\ bij_ren loc (ren_of loc ren).
+Proof. exact get_subgraph_Some_bij. Qed.
 
 Theorem C20_induced_subgraph : forall g loc es, sym g -> induced_subgraph g loc = Ok es ->
   NoDup loc /\ 2 <= length loc /\
@@ -346,16 +353,19 @@ Proof. reflexivity. Qed.
 Theorem C20_degrees : forall g i, length (degrees g) = length g /\ nth i (degrees g) 0 = length (nbrs g i).
 Proof. exact degrees_spec. Qed.
 
-Theorem C20_is_linear_tests_degrees_only : forall g,
-  is_linear g = true <->
-  (2 <= length g /\ (forall d, In d (degrees g) -> 1 <= d <= 2)
-   /\ length (filter (Nat.eqb 1) (degrees g)) = 2).
+(* is_linear: a path on all vertices - degree profile of a path AND connected (the
+   connectivity clause was missing before /repo 4d72250, defect C20-F6) *)
+Theorem C20_is_linear_iff_path : forall g, wf g ->
+  (is_linear g = true <->
+   (2 <= length g /\ (forall d, In d (degrees g) -> 1 <= d <= 2)
+    /\ length (filter (Nat.eqb 1) (degrees g)) = 2 /\ allreach g)).
 Proof. exact is_linear_spec. Qed.
 
-(* known finding C20-F6: "linearly connected" is claimed for a path next to a triangle *)
-Theorem C20_is_linear_refuted :
-  exists g, wf g /\ sym g /\ loopfree g /\ is_linear g = true /\ is_fully_connected g = Some false.
-Proof. exact is_linear_refuted. Qed.
+Example C20_is_linear_nonvacuous :
+  is_linear [[1]; [0; 2]; [1; 3]; [2]] = true
+  /\ is_linear [[1]; [0]; [3; 4]; [2; 4]; [2; 3]] = false       (* old F6 witness: path + triangle *)
+  /\ get_subgraph [[2]; []; [0]] [0; 1; 2] (Some [(0, 0); (1, 0); (2, 2)]) = None.   (* old F5 witness *)
+Proof. repeat split; reflexivity. Qed.
 
 (* ==== UnitaryMatrix.otimes / ipower, UnitaryBuilder.apply_right / apply_left =====================================
    Exact integer matrices (lists of rows over Z).  Index arithmetic of the Kronecker
